@@ -500,8 +500,8 @@ KINDS = {
     "rl_flow": dict(props=["C42"], enc=enc_rl_flow, spec=spec_rl_flow, exact=False),
     "roundtrip": dict(props=["C33"], enc=enc_roundtrip, spec=spec_roundtrip, exact=False),
     "authz_valid": dict(props=["C36"], enc=enc_authz_valid, spec=spec_authz_valid, exact=True),
-    "authz_run": dict(props=["C36"], enc=enc_authz_run, spec=spec_authz_seq, exact=True),
-    "authz_exec": dict(props=["C36"], enc=enc_authz_exec, spec=spec_authz_seq, exact=True),
+    "authz_run": dict(props=["C36", "C49"], enc=enc_authz_run, spec=spec_authz_seq, exact=True),
+    "authz_exec": dict(props=["C36", "C49"], enc=enc_authz_exec, spec=spec_authz_seq, exact=True),
 }
 
 MONITORS = {"C34": [mon_escrow_distinct]}
